@@ -57,7 +57,9 @@ def draw(rng, index):
         cls = f"internal.stateful.{STATE_TOOLS[step]}" if step in STATE_TOOLS else \
             {"boot": "internal.stateless.manage.start", "shutdown": "internal.stateless.manage.stop", "control": "internal.stateless.manage.run"}.get(
                 step, f"internal.stateless.manage.{step}")
-        case["plan"]["by_class"] = {f"re:^{cls}(\\.|$)": [rng.choice(["FAIL", "ERROR"])]}
+        # the step fails everywhere, or only for the first execution (one vm on one worker) while the others pass
+        statuses = [rng.choice(["FAIL", "ERROR"])] + (["PASS"] if rng.random() < 0.5 else [])
+        case["plan"]["by_class"] = {f"re:^{cls}(\\.|$)": statuses}
         case["failing_class"] = cls
     elif roll < 0.5:
         case["inject_exception_at"] = rng.randrange(len(chain))
